@@ -67,13 +67,15 @@ type Engine struct {
 	specFnCache map[string]*specFn
 	MaxInline  int
 	Trace      bool
+	cur        *exec // function activation being executed
+	freshRefs  map[*Term]bool
 }
 
 func NewEngine(p *Program) *Engine {
 	return &Engine{P: p, C: NewCtx(), heapSorts: map[string]*Sort{}, fnIDs: map[string]int{}, strLits: map[string]*Term{},
 		strLitVals: map[*Term]string{}, subAx: map[string]bool{}, typeTags: map[string]int{}, tagTypes: map[int]types.Type{},
 		Unverified: map[string]bool{}, ExternsUsed: map[string]bool{}, Inlines: map[string]bool{}, oblSeq: map[string]int{},
-		specCache: map[*Clause]*boundExpr{}, specFnCache: map[string]*specFn{}, MaxInline: 4}
+		specCache: map[*Clause]*boundExpr{}, specFnCache: map[string]*specFn{}, MaxInline: 4, freshRefs: map[*Term]bool{}}
 }
 
 func (e *Engine) typeTag(t types.Type) *Term {
@@ -117,6 +119,7 @@ type exec struct {
 	lets     map[string]Value
 	ghostEnv map[types.Object]Value
 	frame    *frameInfo
+	pos      token.Pos // position of the instruction being executed
 }
 
 type retRec struct {
